@@ -33,7 +33,8 @@ CONSTANTS ZoneKinds,   \* how the target zone hangs off its signed parent
 \*  "optout"      no DS, parent uses NSEC3 opt-out; zone unsigned
 \*  "nsec3"       signed, denial by NSEC3
 (* query kinds: "a" | "cname" | "wild" | "nodata" | "nx" | "dname" | "ent" (an empty non-terminal below a
-   wildcard's parent: it exists, the truth is NODATA, the wildcard does not apply to it) *)
+   wildcard's parent: it exists, the truth is NODATA, the wildcard does not apply to it) | "whost" (a name with
+   its own A record next to a wildcard: the truth is that record, not the expansion) *)
 (* tamper positions: "referral" (parent's DS / no-DS proof), "dnskey", "answer" *)
 (* tamper kinds: see Breaks below *)
 
@@ -85,6 +86,9 @@ K(pos) == tamper[pos]        \* the tampering applied at a position ("none" = un
                genuine NSEC whose interval spans the asked name - its next name lies BELOW the asked name, which
                therefore exists as an empty non-terminal: the interval denies nothing (RFC 4592 2.2.2, RFC 4035
                5.3.4) and the expansion is not what the signer published
+   wildforeign : (question kinds "ent" and "whost") the same replayed expansion, "proved" by an UNSIGNED NSEC owned
+               by the parent zone whose interval spans the whole child -> records outside the signer zone are
+               never validated and must not count as the next-closer denial
 *)
 BreaksSig(k) == k \in {"data", "sigbytes", "signer", "labels", "expired", "notyet"}
 
@@ -139,6 +143,7 @@ Answer ==
        ELSE
          (IF BreaksSig(k) \/ k \in {"strip", "inject", "roguesig", "fakedname", "foreigndeny"} THEN "bogus"
           ELSE IF k = "wildrep" /\ qk = "ent" THEN "bogus"
+          ELSE IF k = "wildforeign" /\ qk \in {"ent", "whost"} THEN "bogus"
           ELSE IF NeedsProof /\ k \in {"dropproof", "foreignproof"} THEN "bogus"
           ELSE "secure")
   /\ pc' = "reply"
@@ -178,6 +183,7 @@ EffectiveAt(pos) ==
     [] pos = "dnskey" -> ZoneSigned
     [] pos = "answer" /\ k \in {"dropproof", "foreignproof"} -> ZoneSigned /\ NeedsProof
     [] pos = "answer" /\ k = "wildrep" -> ZoneSigned /\ qk = "ent"    \* there is nothing to replay over any other name
+    [] pos = "answer" /\ k = "wildforeign" -> ZoneSigned /\ qk \in {"ent", "whost"}
     [] pos = "answer" /\ k = "inject" -> ZoneSigned   \* in an unsigned zone the foreign RRset is filtered (bailiwick), the rest is served
     [] pos = "answer" -> ZoneSigned          \* signature / data tampering in an unsigned zone is out of scope
     [] OTHER -> TRUE
